@@ -28,6 +28,11 @@ def Op(*a):
     return {"k": "op", "args": list(a)}
 
 
+def Call(*a):
+    """an `op` whose first operand is called with the others (the scoping is the same: all operands are read)"""
+    return {"k": "op", "args": list(a), "call": True}
+
+
 def P(posonly=(), pos=(), vararg="", kwonly=(), kwarg="", defaults=(), kwdefaults=()):
     return {"posonly": list(posonly), "pos": list(pos), "vararg": vararg, "kwonly": list(kwonly), "kwarg": kwarg,
             "defaults": list(defaults), "kwdefaults": list(kwdefaults)}
@@ -114,6 +119,50 @@ def catalogue():
     add("genexp-in-def", Def("tb_f", P(pos=["pa_pos"]), [Ret(Comp("gen", [Op(N("nl_compindef"), N("fr_compelt"))],
                                                                   [Gen(["nl_compindef"], N("fr_iter"), [N("pa_pos")])]))]))
     add("listcomp-in-lambda", Asg(["tb_l"], Lam(P(pos=["pa_lam"]), Comp("list", [Op(N("nl_compinlam"), N("pa_lam"))], [Gen(["nl_compinlam"], N("fr_iter"))]))))
+    # --- two levels of nesting, then a free read, in the ENCLOSING function, of a name an inner scope binds
+    # (inner parameter / local / for target / comprehension variable); the enclosing function is called.
+    # fr_reuse*: the name is free where it is read although an inner scope binds the same name.
+    call_f = Asg(["tb_r"], Call(N("tb_f"), C()))
+    add("def-in-def-param", Def("tb_f", P(pos=["pa_pos"]), [
+        Def("nl_g", P(pos=["fr_reusep"]), [Ret(N("fr_reusep"))]),
+        Ret(Op(Call(N("nl_g"), N("pa_pos")), N("fr_reusep")))]), call_f, Asg(["tb_y"], N("fr_reusep")))
+    add("def-in-def-local", Def("tb_f", P(), [
+        Def("nl_g", P(), [Asg(["fr_reusel"], C()), Ret(N("fr_reusel"))]),
+        Ret(Op(Call(N("nl_g")), N("fr_reusel")))]), Asg(["tb_r"], Call(N("tb_f"))), Asg(["tb_y"], N("fr_reusel")))
+    add("def-in-def-fortarget", Def("tb_f", P(), [
+        Def("nl_g", P(), [{"k": "for", "targets": ["fr_reusef"], "iter": N("fr_iter"), "body": [Asg(["nl_local"], N("fr_reusef"))], "orelse": []},
+                          Ret(N("nl_local"))]),
+        Ret(Op(Call(N("nl_g")), N("fr_reusef")))]), Asg(["tb_r"], Call(N("tb_f"))))
+    add("lambda-in-def", Def("tb_f", P(pos=["pa_pos"]), [
+        Asg(["nl_l"], Lam(P(pos=["fr_reusea"]), N("fr_reusea"))),
+        Ret(Op(Call(N("nl_l"), N("pa_pos")), N("fr_reusea")))]), call_f, Asg(["tb_y"], N("fr_reusea")))
+    add("lambda-in-lambda", Asg(["tb_l"], Lam(P(pos=["pa_lam"]), Op(Call(Lam(P(pos=["fr_reuseb"]), N("fr_reuseb")), N("pa_lam")), N("fr_reuseb")))),
+        Asg(["tb_r"], Call(N("tb_l"), C())))
+    add("lambda-in-def-sortkey", Def("tb_f", P(pos=["pa_pos"]), [
+        Asg(["nl_best"], Call(N("fr_fn"), N("pa_pos"), Lam(P(pos=["fr_reusek"]), Op(N("fr_reusek"), N("fr_inlam"))))),
+        Ret(Op(N("fr_reusek"), N("nl_best")))]), call_f)
+    add("comp-in-def-in-def", Def("tb_f", P(pos=["pa_pos"]), [
+        Def("nl_g", P(pos=["pa_inner"]), [Ret(Comp("list", [N("fr_reusec")], [Gen(["fr_reusec"], N("pa_inner"))]))]),
+        Ret(Op(Call(N("nl_g"), N("pa_pos")), N("fr_reusec")))]), Asg(["tb_r"], Call(N("tb_f"), N("fr_iter"))))
+    add("comp-in-lambda-in-def", Def("tb_f", P(pos=["pa_pos"]), [
+        Asg(["nl_l"], Lam(P(pos=["pa_lam"]), Comp("list", [N("fr_reused")], [Gen(["fr_reused"], N("pa_lam"))]))),
+        Ret(Op(Call(N("nl_l"), N("pa_pos")), N("fr_reused")))]), Asg(["tb_r"], Call(N("tb_f"), N("fr_iter"))))
+    add("def-in-def-in-def", Def("tb_f", P(pos=["pa_pos"]), [
+        Def("nl_g", P(pos=["pa_inner"]), [
+            Def("nl_h", P(pos=["fr_reusee"]), [Ret(N("fr_reusee"))]),
+            Ret(Op(Call(N("nl_h"), N("pa_inner")), N("fr_reusee")))]),
+        Ret(Op(Call(N("nl_g"), N("pa_pos")), N("fr_reusee")))]), call_f)
+    # one level: the comprehension is the inner scope, the def the enclosing function
+    add("comp-in-def-then-read", Def("tb_f", P(pos=["pa_pos"]), [
+        Asg(["nl_l"], Comp("list", [N("fr_aftercomp")], [Gen(["fr_aftercomp"], N("pa_pos"))])),
+        Ret(Op(N("nl_l"), N("fr_aftercomp")))]), Asg(["tb_r"], Call(N("tb_f"), N("fr_iter"))))
+    add("genexp-in-def-then-read", Def("tb_f", P(pos=["pa_pos"]), [
+        Asg(["nl_l"], Call(N("fr_fn"), Comp("gen", [N("fr_aftergen")], [Gen(["fr_aftergen"], N("pa_pos"))]))),
+        Ret(Op(N("nl_l"), N("fr_aftergen")))]), Asg(["tb_r"], Call(N("tb_f"), N("fr_iter"))))
+    # one level, then a free read at the top of the block
+    add("def-param-then-top-read", Def("tb_f", P(pos=["fr_reuset"]), [Ret(N("fr_reuset"))]), call_f, Asg(["tb_y"], N("fr_reuset")))
+    add("lambda-param-then-top-read", Asg(["tb_l"], Lam(P(pos=["fr_reuseu"]), N("fr_reuseu"))), Asg(["tb_r"], Call(N("tb_l"), C())),
+        Asg(["tb_y"], N("fr_reuseu")))
     add("expr-genexp", {"k": "expr", "value": Op(N("fr_fn"), Comp("gen", [N("nl_comp")], [Gen(["nl_comp"], N("fr_iter"))]))})
     return c
 
@@ -152,7 +201,7 @@ def src_expr(e):
         return "7"
     if k == "op":
         a = e["args"]
-        if a and a[0]["k"] == "name" and role(a[0]["id"]) in ("fr_fn", "tb_f", "nl_g"):
+        if e.get("call") or (a and a[0]["k"] == "name" and role(a[0]["id"]) in ("fr_fn", "tb_f", "nl_g")):
             return "%s(%s)" % (src_expr(a[0]), ", ".join(src_expr(x) for x in a[1:]))
         return "(" + ", ".join(src_expr(x) for x in a) + ("," if len(a) == 1 else "") + ")"
     if k == "lambda":
@@ -241,7 +290,7 @@ def src_block(ss, ind):
 def strip_form(obj):
     """the TLA+ side does not need the concrete import spelling"""
     if isinstance(obj, dict):
-        return {k: strip_form(v) for k, v in obj.items() if k != "form"}
+        return {k: strip_form(v) for k, v in obj.items() if k not in ("form", "call")}
     if isinstance(obj, list):
         return [strip_form(x) for x in obj]
     return obj
